@@ -292,3 +292,129 @@ def add_spatial_full(u, sh):
 def add_vec_zero_one(u, sh):
     """impl Zero / One for the vector (needed where a vector is itself used as a scalar-like factor)"""
     pass
+
+
+# ------------------------------------------------------------------ every operator form (C02)
+ALLOPS = dict(BIN)
+ALLOPS.update(UN)
+OPRX = _re.compile(r"^impl(<[^>]*>)?(Add|Sub|Mul|Div|Rem|Shl|Shr|BitAnd|BitOr|BitXor)(Assign)?<(.+?)>for(&'\w )?(\w+)<T>(where.*)?$")
+
+
+def add_all_operator_forms(u, sh, scalar_left=('f32',)):
+    """scan the vector module for every impl of a core::ops binary operator and contract it per element"""
+    N, P = sh.name, sh.path
+    count = 0
+    for it in u.exp.by_path.get(P, []):
+        if it.kind != 'impl':
+            continue
+        h = it.nheader()
+        m = OPRX.match(h)
+        if not m or m.group(6) != N:
+            continue
+        tr, assign, rhs = m.group(2), bool(m.group(3)), m.group(4)
+        mth = ALLOPS[tr][0]
+        if rhs == 'V':
+            sel = lambda f: 'rhs.into_spec().%s.v@' % f
+            guard = 'V::obeys_into_spec() ==> '
+        elif _re.match(r"^(&'\w )?%s<T>$" % N, rhs):
+            sel = lambda f: 'rhs.%s.v@' % f
+            guard = ''
+        elif _re.match(r"^(&'\w )?T$", rhs):
+            sel = lambda f: 'rhs.v@'
+            guard = ''
+        else:
+            continue
+        hdr = ' '.join(it.header.split())
+        if assign:
+            ens = [guard + 'final(self).%s.v@ == %s' % (f, opx(tr, 'old(self).%s.v@' % f, sel(f))) for f in sh.fields]
+            u.take_impl(P, hdr, {mth + '_assign': C(ret=None, ensures=ens)})
+        else:
+            ens = [guard + 'res.%s.v@ == %s' % (f, opx(tr, 'self.%s.v@' % f, sel(f))) for f in sh.fields]
+            u.take_impl(P, hdr, {mth: C(ensures=ens)})
+        count += 1
+    # commutative scalar-left impls (one of the ten identical macro arms, with the primitive := R)
+    for tr in ('Add', 'Mul'):
+        for prim in scalar_left:
+            hdr = 'impl %s<%s<%s>> for %s' % (tr, N, prim, prim)
+            if u.exp.impls(P, hdr):
+                mth = ALLOPS[tr][0]
+                # the code evaluates `rhs op self` (the operators are commutative on the scalar); spell the commuted facts out
+                pro = 'proof { %s }' % ' '.join('assert(%s == %s);' % (opx(tr, 'self.v@', 'rhs.%s.v@' % f), opx(tr, 'rhs.%s.v@' % f, 'self.v@'))
+                                               for f in sh.fields)
+                u.take_impl(P, hdr, {mth: C(ensures=['res.%s.v@ == %s' % (f, opx(tr, 'self.v@', 'rhs.%s.v@' % f)) for f in sh.fields],
+                                            prologue=pro)}, tparams=(prim,))
+                count += 1
+    # Not
+    hdr = 'impl<T> Not for %s<T> where T: Not<Output = T>' % N
+    if u.exp.impls(P, hdr):
+        u.take_impl(P, hdr, {'not': C(ensures=['res.%s.v@ == not_r(self.%s.v@)' % (f, f) for f in sh.fields])})
+        count += 1
+    # the eight MulAdd impls
+    for it in u.exp.by_path.get(P, []):
+        if it.kind == 'impl' and _re.match(r"^impl<.*>MulAdd<.*>for(&'\w )?%s<T>where" % N, it.nheader()):
+            hdr = ' '.join(it.header.split())
+            mm = _re.match(r"^impl<.*?>MulAdd<(.+),(.+?)>for", it.nheader())
+            ta, tb = [x.replace('<T>', '<R>') for x in (mm.group(1), mm.group(2))]
+            u.impl_extra[(P, it.nheader())] = ('open spec fn mul_add_spec(self, a: %s, b: %s) -> %s<R> { %s }'
+                                               % (ta, tb, N, sh.lit(['rr(self.%s.v@ * a.%s.v@ + b.%s.v@)' % (f, f, f) for f in sh.fields])))
+            u.take_impl(P, hdr, {'mul_add': C(ensures=['res.%s.v@ == self.%s.v@ * a.%s.v@ + b.%s.v@' % (f, f, f, f) for f in sh.fields])})
+            count += 1
+    return count
+
+
+def add_reductions_and_maps(u, sh):
+    N, P = sh.name, sh.path
+    gh = 'impl<T>%s<T>' % N
+    f = sh.fields
+    n = sh.dim
+
+    def foldtxt(fn, terms):
+        e = terms[0]
+        for t in terms[1:]:
+            e = '%s(%s, %s)' % (fn, e, t)
+        return e
+    vs = ['self.%s.v@' % x for x in f]
+    u.take(P, gh, 'reduce_partial_min', C(ensures=['res.v@ == ' + foldtxt('min_r', vs)]))
+    u.take(P, gh, 'reduce_partial_max', C(ensures=['res.v@ == ' + foldtxt('max_r', vs)]))
+    for fn, sp in (('reduce_bitand', 'bitand_r'), ('reduce_bitor', 'bitor_r'), ('reduce_bitxor', 'bitxor_r')):
+        u.take(P, gh, fn, C(ensures=['res.v@ == ' + foldtxt(sp, vs)]))
+    # the dropped bound `T: From<u8>` fixed the type of `N as _`; state it (recorded rewrite, N-rule D3')
+    u.take(P, gh, 'average', C(ensures=['res.v@ == %s / %dreal' % (fold(sh, 'self', '+'), n)],
+                               body_subst=[('(%d as _)' % n, '(%d as u8)' % n)]))
+    u.take(P, gh, 'iota', C(ensures=['res.%s.v@ == %dreal' % (x, i) for i, x in enumerate(f)]))
+    rq = ['V0::obeys_into_spec()', 'V1::obeys_into_spec()']
+    for fn, sp in (('partial_min', 'min_r'), ('partial_max', 'max_r')):
+        u.take(P, gh, fn, C(requires=rq, ensures=['res.%s.v@ == %s(a.into_spec().%s.v@, b.into_spec().%s.v@)' % (x, sp, x, x) for x in f]))
+    # generic element movement with closures
+    u.take(P, gh, 'map', C(requires=['forall|x: T| call_requires(f, (x,))'],
+                           ensures=['call_ensures(f, (self.%s,), res.%s)' % (x, x) for x in f]), mode='G')
+    u.take(P, gh, 'map2', C(requires=['forall|x: T, y: S| call_requires(f, (x, y))'],
+                            ensures=['call_ensures(f, (self.%s, other.%s), res.%s)' % (x, x, x) for x in f]), mode='G')
+    u.take(P, gh, 'map3', C(requires=['forall|x: T, y: S1, z: S2| call_requires(f, (x, y, z))'],
+                            ensures=['call_ensures(f, (self.%s, a.%s, b.%s), res.%s)' % (x, x, x, x) for x in f]), mode='G')
+    u.take(P, gh, 'apply', C(ret=None, requires=['forall|x: T| call_requires(f, (x,))'],
+                             ensures=['call_ensures(f, (old(self).%s,), final(self).%s)' % (x, x) for x in f]), mode='G')
+    if n >= 2:
+        # user fold: left to right
+        chain = []
+        prev = 'self.%s' % f[0]
+        names = []
+        for i in range(1, n):
+            nm = 'a%d' % i
+            names.append(nm)
+            chain.append('call_ensures(f, (%s, self.%s), %s)' % (prev, f[i], nm if i < n - 1 else 'res'))
+            prev = nm
+        if n == 2:
+            ens = ['call_ensures(f, (self.%s, self.%s), res)' % (f[0], f[1])]
+        else:
+            # nested existentials, one intermediate value each, triggered on its own call_ensures
+            inner = 'call_ensures(f, (a%d, self.%s), res)' % (n - 2, f[n - 1])
+            for i in range(n - 2, 0, -1):
+                prev = 'self.%s' % f[0] if i == 1 else 'a%d' % (i - 1)
+                inner = '(exists|a%d: T| #[trigger] call_ensures(f, (%s, self.%s), a%d) && %s)' % (i, prev, f[i], i, inner)
+            ens = [inner]
+        u.take(P, gh, 'reduce', C(requires=['forall|x: T, y: T| call_requires(f, (x, y))'], ensures=ens), mode='G')
+    hb = 'impl %s<bool>' % N
+    if u.exp.impls(P, hb):
+        u.take(P, hb, 'reduce_and', C(ensures=['res == (%s)' % ' && '.join('self.%s' % x for x in f)]), mode='G')
+        u.take(P, hb, 'reduce_or', C(ensures=['res == (%s)' % ' || '.join('self.%s' % x for x in f)]), mode='G')
